@@ -265,7 +265,23 @@ class C18Run(object):
             d.addCallbacks(lambda p: rec['result'].append(('ok', p)), lambda f: rec['result'].append(('err', f)))
 
         def start(_):
-            state['tor'] = Tor(sim.reactor, self.proto)
+            t = Tor(sim.reactor, self.proto)
+            if not self.dunder_fault and not self.transient_fault and ch.chance(1, 3, 'withview'):
+                # the application also keeps a configuration view (Tor.get_config()) and has an edit of SocksPort in it that
+                # it has not saved: which SOCKS listeners Tor HAS is still a question for Tor
+                sim.probe('tor-object-has-a-config-view-with-unsaved-socksport-edit')
+
+                def have(cfg):
+                    if ch.chance(1, 2, 'viewassign'):
+                        cfg.SocksPort = ['39999']
+                    else:
+                        cfg.SocksPort.insert(0, 'unix:/run/app/not-yet-saved')
+                    state['tor'] = t
+                    state['answered0'] = tor.answered
+                    one()
+                t.get_config().addCallbacks(have, lambda f: sim.fail('C18.get-config-failed', f.getErrorMessage()[:100]))
+                return
+            state['tor'] = t
             state['answered0'] = tor.answered
             one()
         self.proto.post_bootstrap.addCallback(start)
